@@ -334,3 +334,39 @@ fn c05_crash_and_rerun() {
     }
     println!("COMPANION-OK cases={}", cases);
 }
+
+/// the lookup the clone output uses (ChunkIndex::contains / remove through the truncated `dyn HashSumKey`), against its meaning:
+/// a hash matches an entry iff, truncated to the index's hash length, it is byte-for-byte the entry's key -- in particular a
+/// hash SHORTER than the index's hash length (a chunk verified against an archive with a shorter hash length) never matches an
+/// entry that merely shares its prefix, and a longer one matches exactly its truncation.  All hash lengths 4..=64 x lookup
+/// lengths 0..=64 x 3 chunks.
+#[test]
+fn c02_lookup_is_exact_on_the_truncated_key() {
+    use bitar::HashSum;
+    let mut cases = 0usize;
+    for id in 0..3usize {
+        let full: Vec<u8> = verified(id, 5 + id).hash().slice().to_vec();
+        let other: Vec<u8> = verified(id + 3, 9).hash().slice().to_vec();
+        for hl in 4..=64usize {
+            if full[..hl] == other[..hl] { continue; }     // the two chunks would share a key at this length
+            for ll in 0..=64usize {
+                let mut index = ChunkIndex::new_empty(hl);
+                index.add_chunk(HashSum::from(&full[..]), 5 + id, &[0, 100]);
+                index.add_chunk(HashSum::from(&other[..]), 9, &[50]);
+                let probe = HashSum::from(&full[..ll]);
+                let expect = ll >= hl;     // trunc(probe, hl) == full[..hl]  <=>  the probe carries at least hl bytes of the hash
+                let d = || format!("index hash length {} lookup with the first {} bytes of the chunk's hash", hl, ll);
+                if index.contains(&probe) != expect {
+                    witness("C02", "ChunkIndex::contains matches a hash that is not the entry's key (or misses the key)", d());
+                }
+                let r = index.remove(&probe);
+                if r.is_some() != expect || (expect && r.as_ref().map(|l| l.offsets().to_vec()) != Some(vec![0, 100])) {
+                    witness("C02", "ChunkIndex::remove returns an entry for a hash that is not its key (or misses the key)", d());
+                }
+                if index.len() != if expect { 1 } else { 2 } { witness("C02", "ChunkIndex::remove changed other entries", d()); }
+                cases += 1;
+            }
+        }
+    }
+    println!("COMPANION-OK cases={}", cases);
+}
